@@ -868,6 +868,15 @@ static void plan_c15(void)
                     }
                     char **arr = place_ptrs(&s, (int[]){0}, 1, GP_END); vh_op("liberasurecode_verify_stripe_metadata");
                     liberasurecode_verify_stripe_metadata(s.desc, arr, 1);
+                    /* the same fragments as an opposite-endian writer lays them out, ending at the guard page: the queries read header + payload, no more */
+                    for (int f = 0; f < s.n; f += (s.n > 4 ? s.n - 1 : 1)) {
+                        gbuf_t gt; uint8_t *t = gbuf_alloc(&gt, s.flen, GP_END); memcpy(t, enc_frag(&s, f), s.flen); wire_byteswap_twin(t); gbuf_readonly(&gt);
+                        fragment_metadata_t md; vh_op("liberasurecode_get_fragment_metadata"); vh_transitions(2);
+                        int rc = liberasurecode_get_fragment_metadata((char *)t, &md);
+                        if (rc != 0 || md.chksum_mismatch) vh_violation("twin-misread", "opposite-endian twin of fragment %d: metadata query rc=%d mismatch=%d", f, rc, md.chksum_mismatch);
+                        vh_op("is_invalid_fragment"); is_invalid_fragment(s.desc, (char *)t);
+                        gbuf_free(&gt);
+                    }
                 }
                 /* fragment_len smaller than a header, with buffers that really are that short and end at a PROT_NONE page */
                 { static const uint64_t sl[] = { 0, 1, 40, 62, 79 };
